@@ -207,6 +207,12 @@ PROPS["C23"] = dict(explanation="Bounded symbolic execution of the real count/mi
     stubs=AGG_STUBS + ["gonum f64.AxpyUnitaryTo (assembly): dst[i] = alpha*x[i] + y[i] with two roundings", "time.Now in Output(): symbolic clock"], assumptions=COMMON_ASSUME)
 
 
+PROPS["C24"] = dict(explanation="Bounded symbolic execution of the real on-disk aggregation trigger over the file-system model: base 1Min OHLCV bars are written with executor.WriteCSM in two requests; after each, OnDiskAggTrigger.Fire runs with the records of that request as the dispatcher delivers them (interval index + row), through both of its paths (window cache valid -> RecordsToColumnSeries + ColumnSeriesUnion with the cached window; cache absent/invalid -> query of the base bucket), then writeAggregates/aggregate (the models.Bar accumulation) and the write of the 5Min bucket. The 5Min bucket is read back with frontend.QueryService and every bar must be first-open / max-high / min-low / last-close / total-volume of the base bars currently stored in its window, one bar per window that has base bars - also when the second request rewrites a minute of the first or lands before it.",
+    runs=[dict(pkg="contrib/ondiskagg/aggtrigger", files=["c24_ondiskagg.go"], entries=["VerifC24Aggregates"], must_reach=["entered", "fired"], opts=dict(timeout=60))],
+    bounds=["3 base bars on minutes chosen from {0,3,5,6} of one hour (two 5Min windows): request 1 carries two ascending minutes, request 2 one minute (new, rewriting, or earlier)", "prices symbolic float32 with low <= open, close <= high; volumes 0..1000000", "one destination timeframe (5Min), no market-hours filter"],
+    outside=["NewTrigger's JSON configuration round trip (the trigger value is built directly)", "several destination timeframes (the cache is only stored for the upper bound), the nasdaq filter for >= 1D, TRADE/tick base buckets (convertCSToTrades)", "year boundaries, concurrent Fire calls"],
+    stubs=FS_STUBS + ["sort.Slice: engine intrinsic (insertion sort with the real less function)"], assumptions=COMMON_ASSUME)
+
 SQL_EXPL = "The ANTLR front end is not executed: the harness assembles the SelectRelation with the calls the parse-tree visitors make (NewStaticPredicate, StaticPredicate.AddComparison, StaticPredicateGroup.Merge per comparison; AliasedIdentifier/AddAlias per select item). Everything behind it is real and runs over the file-system model: SelectRelation.Materialize (always-false test, SourceValidator, Epoch predicate push-down into planner.Query, the post-filter bitmap, Project/Rename, RestrictLength), planner.Parse, executor.NewReader/Read. "
 PROPS["C19"] = dict(explanation=SQL_EXPL + "C19: three daily bars with symbolic int32 values; WHERE is a conjunction of one or two comparisons, each on Epoch (literal in nanoseconds, as a datetime string is converted; whole seconds from one day before the first bar to one day after the last, symbolic) or on the int32 column (literal symbolic), operator in {<, <=, >, >=, =}; the result must be exactly the bars satisfying the conjunction, in time order.",
     runs=[dict(pkg="sqlparser", files=["c19_sql.go"], entries=["VerifC19Where"], must_reach=["entered", "materialized"], opts=dict(timeout=60))],
